@@ -25,11 +25,20 @@ Definition w_fwd_call : modul :=
   mk_modul "m" [EProc "xp" [I32; I32]] []
     [mk_func "pr" BGlobal None [] (fwd I32 [ICallP (Glob "xp") [Loc 1; Loc 1]])].
 
-Definition cfg_no_value := mk_jcfg false true true true true.
-Definition cfg_no_volatile := mk_jcfg true false true true true.
-Definition cfg_no_copyblob := mk_jcfg true true false true true.
-Definition cfg_no_undefined := mk_jcfg true true true false true.
-Definition cfg_no_fwdtype := mk_jcfg true true true true false.
+Definition w_fwd_phi : modul :=
+  proc [mk_block 1 "entry" [IJump 5];
+        mk_block 2 "j" [IPhi 1 "p" I32 [(3%positive, Loc 2); (4%positive, Loc 2)]; IExit];
+        mk_block 3 "a" [IJump 2]; mk_block 4 "b" [IJump 2];
+        mk_block 5 "d" [IConst 2 "x" I32 (CInt 3); ICJump (Loc 2) Ceq (Loc 2) 3 4]].
+
+Definition cfg_no_value := mk_jcfg false true true true true true true true.
+Definition cfg_no_volatile := mk_jcfg true false true true true true true true.
+Definition cfg_no_copyblob := mk_jcfg true true false true true true true true.
+Definition cfg_no_undefined := mk_jcfg true true true false true true true true.
+Definition cfg_no_fwdtype := mk_jcfg true true true true false true true true.
+Definition cfg_no_ru_generic := mk_jcfg true true true true true false true true.
+Definition cfg_no_ru_phi := mk_jcfg true true true true true true false true.
+Definition cfg_no_ru_call := mk_jcfg true true true true true true true false.
 
 Definition rt_ok (c : jcfg) (m : modul) : bool :=
   match roundtrip c m with Ok m' => modul_eqb m' m | _ => false end.
@@ -53,21 +62,25 @@ Lemma undefined_refuted : exists m, wf_modul m = true /\ roundtrip cfg_no_undefi
 Proof. refute w_undefined. Qed.
 Lemma fwdtype_refuted : exists m, wf_modul m = true /\ roundtrip cfg_no_fwdtype m <> Ok m.
 Proof. refute w_fwdtype. Qed.
-Lemma orig_refuted : forall w, In w [w_value; w_volatile; w_copyblob; w_undefined; w_fwdtype] ->
-  wf_modul w = true /\ roundtrip cfg_orig w <> Ok w.
+Definition all_witnesses := [w_value; w_volatile; w_copyblob; w_undefined; w_fwdtype; w_fwd_double; w_fwd_phi; w_fwd_call].
+Lemma orig_refuted : forall w, In w all_witnesses -> wf_modul w = true /\ roundtrip cfg_orig w <> Ok w.
 Proof.
-  intros w Hin. cbn [In] in Hin.
+  intros w Hin. unfold all_witnesses in Hin. cbn [In] in Hin.
   repeat (destruct Hin as [<-|Hin];
           [split; [vm_compute; reflexivity | intros H; apply rt_ok_spec in H; vm_compute in H; discriminate H]|]).
   contradiction.
 Qed.
 (* the repaired witnesses do round-trip *)
-Lemma fixed_witnesses : forallb (rt_ok cfg_fixed) [w_value; w_volatile; w_copyblob; w_undefined; w_fwdtype] = true.
+Lemma fixed_witnesses : forallb (rt_ok cfg_fixed) all_witnesses = true.
 Proof. vm_compute. reflexivity. Qed.
-(* known findings that remain with all C16 fixes applied (defects of ir.py replace_use) *)
-Lemma fwd_double_use_refuted : wf_modul w_fwd_double = true /\ roundtrip cfg_fixed w_fwd_double = Internal KeyError.
+(* as-found behaviour of ppci/ir.py replace_use reached through DictReader (fixed by 2d6a9c1, e4350a7, 283ca09) *)
+Lemma fwd_double_use_refuted :
+  wf_modul w_fwd_double = true /\ roundtrip cfg_no_ru_generic w_fwd_double = Internal KeyError.
 Proof. split; vm_compute; reflexivity. Qed.
-Lemma fwd_call_args_refuted : exists m', wf_modul w_fwd_call = true /\ roundtrip cfg_fixed w_fwd_call = Ok m' /\ m' <> w_fwd_call.
+Lemma fwd_phi_refuted : wf_modul w_fwd_phi = true /\ roundtrip cfg_no_ru_phi w_fwd_phi = Internal KeyError.
+Proof. split; vm_compute; reflexivity. Qed.
+Lemma fwd_call_args_refuted :
+  exists m', wf_modul w_fwd_call = true /\ roundtrip cfg_no_ru_call w_fwd_call = Ok m' /\ m' <> w_fwd_call.
 Proof.
   eexists. split; [vm_compute; reflexivity|]. split; [vm_compute; reflexivity|].
   intros H. apply modul_eqb_spec in H. vm_compute in H. discriminate H.
@@ -152,9 +165,9 @@ Qed.
 Definition reg_glob (name : string) (st : rst) : rst :=
   mk_rst ((name, (Glob name, Ptr)) :: rs_glob st) (rs_loc st) false (rs_pend st) (rs_next st) (rs_bmap st)
          (rs_funcs st) (rs_blocks st) (rs_ins st).
-Lemma register_glob name st (o : option instr) :
+Lemma register_glob cfg name st (o : option instr) :
   rs_infun st = false -> plookup name (rs_pend st) = None -> vlookup name (rs_glob st) = None ->
-  register name (Glob name) Ptr o st = Ok (o, reg_glob name st).
+  register cfg name (Glob name) Ptr o st = Ok (o, reg_glob name st).
 Proof.
   intros Hi Hp Hv. unfold register. rewrite Hp. cbn [bind]. rewrite Hi, Hv. reflexivity.
 Qed.
@@ -179,7 +192,7 @@ Qed.
 Lemma external_roundtrip e st :
   rs_infun st = false ->
   plookup (ext_name e) (rs_pend st) = None -> vlookup (ext_name e) (rs_glob st) = None ->
-  construct_external (write_external e) st = Ok (e, reg_glob (ext_name e) st).
+  construct_external cfg_fixed (write_external e) st = Ok (e, reg_glob (ext_name e) st).
 Proof.
   intros Hi Hp Hv. destruct e as [n|n args rt|n args]; cbn [ext_name] in *;
     unfold construct_external, write_external, jstr; cbn.
@@ -200,9 +213,9 @@ Definition fresh_name (n : string) (st : rst) : Prop :=
   rs_infun st = true /\ plookup n (rs_pend st) = None /\ vlookup n (rs_loc st) = None /\
   mem_str n (block_names_of (rs_blocks st)) = false.
 
-Lemma finish_value_fresh i v n t st :
+Lemma finish_value_fresh cfg i v n t st :
   instr_def i = Some (v, n, t) -> v = rs_next st -> fresh_name n st -> open_block st ->
-  finish_value i st = Ok (after_value i n t st).
+  finish_value cfg i st = Ok (after_value i n t st).
 Proof.
   intros Hd -> (Hi & Hp & Hv & Hb) Ho. unfold finish_value. rewrite Hd.
   unfold register. rewrite Hp. cbn [bind]. rewrite Hi, Hv. cbn [bind].
